@@ -9,6 +9,9 @@ from verifkit import Infra, read_ndjson, write_ndjson
 F6_SIGNATURE = "cost-drift:promote-of-removed-object"
 # wash leaves a priced object with a priority that is not the one for the head it works on (refresh rule of the pinned code)
 STALE_PRIO_SIGNATURE = "order:stale-priority-after-head-change"
+# the one residual shape (known finding): an Add priced under head b0 and inserted after the head moved to b1 and after b1's
+# wash took its snapshot keeps b0's priority until the next head change
+RACED_ADD_SIGNATURE = "order:stale-priority:add-raced-head-change"
 
 
 def report_once(ctx, sig, what, save):
@@ -198,8 +201,11 @@ def split_runs(events):
 def signature(ev, invariant, run_events, off):
     if ev.get("stale") or any(e.get("stale") for e in run_events[:off + 1]):
         return F6_SIGNATURE
-    if ev.get("staleprio") or any(e.get("staleprio") for e in run_events[:off + 1]):
+    marks = [e.get("staleprio") for e in run_events[:off + 1] if e.get("staleprio")]
+    if True in marks:
         return STALE_PRIO_SIGNATURE
+    if marks:
+        return RACED_ADD_SIGNATURE
     if invariant:
         return "invariant:" + invariant
     return "rejected:" + str(ev.get("e"))
@@ -280,12 +286,27 @@ def record_and_validate(ctx, runs, scen, sched, label, seed_offset=0):
             sig = F6_SIGNATURE if (drift and s.get("stalePromotes", 0) > 0) else "oracle:" + v["kind"]
             if v["kind"].startswith("order") and s.get("stalePrios", 0) > 0:
                 sig = STALE_PRIO_SIGNATURE
+            elif v["kind"].startswith("order") and s.get("stalePriosRaced", 0) > 0:
+                sig = RACED_ADD_SIGNATURE
             report_once(ctx, sig, "%s: scenario=%s mode=%s seed=%s: %s" % (label, s["scen"], s["mode"], s["seed"], v["detail"]),
                         lambda i=i, s=s, v=v: ctx.save_replay(
                             "%s-oracle-run%d-seed%s.json" % (label, i, s["seed"]),
                             {"how": dict(scen=s["scen"], seed=s["seed"], mode=s["mode"]), "violations": s["violations"],
                              "offending_index": v["index"], "stats": s,
                              "trace": all_runs[i]["events"] if i < len(all_runs) else None}))
+    # the known residual is an observation by itself: a published object carries the priority of a head that is gone
+    for i, s in enumerate(stats):
+        if s.get("stalePriosRaced", 0) > 0:
+            ctx.cov["raced_add_stale_priorities"] = ctx.cov.get("raced_add_stale_priorities", 0) + s["stalePriosRaced"]
+            evs = all_runs[i]["events"] if i < len(all_runs) else []
+            off = next((k for k, e in enumerate(evs) if e.get("staleprio") == "raced"), 0)
+            report_once(ctx, RACED_ADD_SIGNATURE,
+                        "%s: scenario=%s mode=%s seed=%s event #%d: after a wash on an unchanged head a pooled tx still has the priority "
+                        "of the head its Add evaluated against (the head moved before the Add took the map lock): %s"
+                        % (label, s["scen"], s["mode"], s["seed"], off, json.dumps(evs[off], sort_keys=True)[:400] if evs else ""),
+                        lambda i=i, s=s, evs=evs, off=off: ctx.save_replay(
+                            "%s-raced-add-run%d-seed%s.json" % (label, i, s["seed"]),
+                            {"how": dict(scen=s["scen"], seed=s["seed"], mode=s["mode"]), "offending_index": off, "stats": s, "trace": evs}))
     accepted = validate_events(ctx, events, stats, label, dict(scen=scen, seed=seed, sched=sched, runs=runs))
     if accepted:
         ctx.sample({"scenario": accepted[0]["events"][0].get("scen"), "mode": accepted[0]["events"][0].get("mode"),
